@@ -379,6 +379,8 @@ func streamLex(o *Out, r *rand.Rand, n int, thorough bool) {
 	fixedPairs = append(fixedPairs, [][2]string{
 		{"a = 1", "s = \"" + long + "\" + t"}, {"a = 1\nb = 2", manyElems + "\nz = l"}, {"a = 1", nested}, {"s = \"" + long + "\" + t", "u = 2\nv = \"" + long + "\" + w"},
 		{"a = 1\nb = 2\nc = 3", "f(" + strings.Repeat("x, ", 1400) + "y) + g(z)"}, {manyElems, manyElems},
+		// a byte order mark is no blank: whatever a text with one at its start does alone, it does after another text
+		{"a = 1", "\ufeffb = 2"}, {"a = 1", "\ufeff"}, {"\ufeffa = 1", "b = 2"}, {"", "\ufeffb = 2"}, {"a = 1 # c", "\ufeff\nb = 2"},
 	}...)
 	if npairs > 0 {
 		npairs += len(fixedPairs)
@@ -434,8 +436,13 @@ func streamLex(o *Out, r *rand.Rand, n int, thorough bool) {
 			}
 			continue
 		}
-		sa, _ := parser.ParseSrc(a)
-		sb, _ := parser.ParseSrc(b)
+		sa, ea := parser.ParseSrc(a)
+		sb, eb := parser.ParseSrc(b)
+		if ea != nil || eb != nil {
+			// the claim is about two texts that each parse on their own
+			o.Sum.Hist["concat:not-both-valid"]++
+			continue
+		}
 		da, ok1 := astser.DumpStmts(sa, 0)
 		db, ok2 := astser.DumpStmts(sb, strings.Count(a, "\n")+1)
 		if !ok1 || !ok2 {
